@@ -23,3 +23,12 @@ claim("C14", "DESIGN.md §2 C14",
       "held outputs to later builds, and full availability after every build is released or failed. Schedules are sampled, not "
       "enumerated: exploration level.",
       "Only interleavings induced by database-call completion order within one process/event loop; broadcast is a stub.")
+claim("C09", "DESIGN.md §2 C09",
+      "model-based property testing: Hypothesis op histories over a chain/server model, real ledger sync, model-vs-wallet comparison after every delivery round",
+      "Generated histories (fund within the gap / reuse, spend to change/receiving/external with confirmed and unconfirmed parents, "
+      "claim, support, abandon, 12 kinds of third-party output script, mining, sequential / concurrent / duplicate / stale delivery of "
+      "address notifications with a gate scheduler ordering every database and network call) run against the real Ledger.update_history "
+      "and Database; after each round the wallet's per-address history, balances (spendable and with claims), UTXO id set and address "
+      "gap are compared with an independent chain model. Histories and schedules are sampled: exploration level.",
+      "Server model follows the ElectrumX/LBRY-hub conventions stated in the evidence assumptions; headers are empty so Merkle "
+      "verification is skipped here (C08); <=45 ops per history.")
